@@ -31,6 +31,10 @@ type c08Replay struct {
 	MkNames []string        `json:"mk_names,omitempty"`
 	MkExts  []string        `json:"mk_exts,omitempty"`
 	Extra   string          `json:"extra_options,omitempty"`
+	// MkSame: the Mkdir step is given the very same target option(s) as the Verify step (whatever their spelling),
+	// plus MkExtra (e.g. the massive option)
+	MkSame  bool   `json:"mk_same_target_options,omitempty"`
+	MkExtra string `json:"mk_extra_options,omitempty"`
 }
 
 // options that do not concern Verify (the massive option only changes how it is done)
@@ -75,7 +79,7 @@ func c08Case(c *rep.Ctx, r c08Replay) {
 	defer j.Remove()
 	desc := fmt.Sprintf("route=%s strict=%v form=%s tree=%s", r.Route, r.Strict, r.Form, model.Key(m))
 	size := len(r.Depth)*10 + len(r.State)
-	if r.MkDepth != nil {
+	if r.MkDepth != nil && !r.MkSame {
 		var err error
 		mf := enum.Build(r.MkDepth, r.MkNames)
 		pan := sut.Guard(func() {
@@ -85,7 +89,7 @@ func c08Case(c *rep.Ctx, r c08Replay) {
 			return // Mkdir's own behaviour is C06's business
 		}
 		desc += fmt.Sprintf(" after Mkdir(%s, exts=%q)", model.Key(model.Merge(mf)), r.MkExts)
-	} else {
+	} else if r.MkDepth == nil {
 		fsx.Populate(j.Target, r.State)
 		desc += fmt.Sprintf(" state=%v", keysOf(r.State))
 	}
@@ -106,6 +110,12 @@ func c08Case(c *rep.Ctx, r c08Replay) {
 		os.Symlink(j.Target, link)
 		restore = func() { os.Remove(link) }
 		target = link
+	case "symlink-dotdot":
+		// "<dir>/link-up/../target" where link-up points two levels up: taken as text it is <dir>/target
+		link := filepath.Join(filepath.Dir(j.Target), "link-up")
+		os.Symlink(filepath.Join(j.Root, "p"), link)
+		restore = func() { os.Remove(link) }
+		target = link + "/../target"
 	case "dot", "dot-given-last":
 		wd, _ := os.Getwd()
 		os.Chdir(j.Target)
@@ -124,6 +134,24 @@ func c08Case(c *rep.Ctx, r c08Replay) {
 		opts = append(opts, gtree.WithTargetDir(""), gtree.WithTargetDir(filepath.Dir(j.Target)), nil, gtree.WithTargetDir(target))
 	default:
 		opts = append(opts, gtree.WithTargetDir(target))
+	}
+	if r.MkDepth != nil && r.MkSame {
+		var err error
+		mf := enum.Build(r.MkDepth, r.MkNames)
+		mo := append(append([]gtree.Option{}, opts...), gtree.WithFileExtensions(r.MkExts))
+		mo = append(mo, extraOpts(r.MkExtra, "")...)
+		pan := guardMaybeMassive(strings.Contains(r.MkExtra, "massive"), func() {
+			err = gtree.MkdirFromMarkdown(strings.NewReader(enum.Spell(r.MkDepth, r.MkNames, enum.Canonical)), mo...)
+		})
+		if pan != "" || err != nil {
+			if restore != nil {
+				restore()
+			}
+			return // Mkdir's own behaviour is C06's business
+		}
+		desc += fmt.Sprintf(" after Mkdir(%s, exts=%q, same target option, extra=%q)", model.Key(model.Merge(mf)), r.MkExts, r.MkExtra)
+		before = fsx.Snapshot(j.Root)
+		state = before.Under("p/q/target").Kinds()
 	}
 	opts = append(opts, extraOpts(r.Extra, "")...)
 	if r.Extra != "" {
@@ -149,6 +177,10 @@ func c08Case(c *rep.Ctx, r c08Replay) {
 		restore()
 	}
 	after := fsx.Snapshot(j.Root)
+	for _, l := range []string{"link-to-target", "p/q/link-up"} { // the harness's own links
+		delete(before, l)
+		delete(after, l)
+	}
 	c.Eval()
 	c.Trans(1)
 	if pan != "" {
@@ -195,6 +227,11 @@ func c08Case(c *rep.Ctx, r c08Replay) {
 		if err != nil && firstDiff < 0 {
 			c.Violation("C08|file-root-fails-verification", fmt.Sprintf("%s: every node path exists (a root is a regular file) but err=%v", desc, err), size, r)
 		}
+		return
+	}
+	if r.MkDepth != nil && err != nil && fmt.Sprint(r.MkDepth, r.MkNames) == fmt.Sprint(r.Depth, r.Names) {
+		// the last clause of the statement, whatever the directory looks like now
+		c.Violation("C08|tree-just-created-by-mkdir-does-not-verify", fmt.Sprintf("%s: Mkdir returned nil, then Verify of the same tree with the same target: %v", desc, err), size, r)
 		return
 	}
 	if firstDiff < 0 {
@@ -495,6 +532,16 @@ func init() {
 						c.StateN(1)
 						c.Nontrivial()
 						c08Case(c, c08Replay{Kind: "c08", Depth: B.d, Names: B.names, Strict: strict, Form: "abs", Route: "md", MkDepth: A.d, MkNames: A.names, MkExts: ex})
+					}
+				}
+				if fmt.Sprint(A) == fmt.Sprint(B) {
+					// Mkdir then Verify of the same tree, both given the same target spelling; Mkdir also with the massive option
+					for _, form := range []string{"abs", "rel", "slash", "symlink", "symlink-dotdot", "dot"} {
+						for _, mx := range []string{"", "massive"} {
+							for _, ex := range [][]string{nil, {".go"}, {".go", "a"}} {
+								c08Case(c, c08Replay{Kind: "c08", Depth: B.d, Names: B.names, Strict: true, Form: form, Route: "md", MkDepth: A.d, MkNames: A.names, MkExts: ex, MkSame: true, MkExtra: mx})
+							}
+						}
 					}
 				}
 			}
